@@ -764,6 +764,24 @@ func c01Gen(mode string) func(r *vh.Rand, tier string, n int) []c01In {
 		// the former witness of finding 11 (repaired by d3068df; must not panic any more), always first
 		w := []c01Task{{Lanes: []int{}, Waits: []int{1, 2}, Undo: true}, {Lanes: []int{}, Waits: []int{}, Undo: true}, {Lanes: []int{}, Waits: []int{}, Undo: true}}
 		out = append(out, c01In{Tasks: w, Mode: mode, Script: []c01Ev{{K: "ensure"}, {K: "finish", T: 1, O: "ok"}, {K: "finish", T: 2, O: "ok"}, {K: "abort"}}})
+		if mode != "f11" {
+			// provokes (map order permitting: all but 1 Ensure order in 720) the known finding of C02
+			// undo-rerun-sees-handlerless-dependent-in-undo: chain 0(undo) <- 1 <- 2 <- 3 <- 4 <- 5 (no undo handlers),
+			// 6 fails; after the handler-less tasks flipped back to Done and 0 started undoing, a user abort moves them
+			// to Undo again, 0 answers Retry and is re-run by an Ensure pass that visits 0 before 1 became Done again.
+			ch := []c01Task{{Lanes: []int{}, Waits: []int{}, Undo: true}}
+			for i := 1; i <= 5; i++ {
+				ch = append(ch, c01Task{Lanes: []int{}, Waits: []int{i - 1}, Undo: false})
+			}
+			ch = append(ch, c01Task{Lanes: []int{}, Waits: []int{}, Undo: true})
+			sc := []c01Ev{{K: "ensure"}}
+			for i := 0; i <= 5; i++ {
+				sc = append(sc, c01Ev{K: "finish", T: i, O: "ok"}, c01Ev{K: "ensure"})
+			}
+			sc = append(sc, c01Ev{K: "finish", T: 6, O: "err"}, c01Ev{K: "ensure"}, c01Ev{K: "abort"},
+				c01Ev{K: "finish", T: 0, O: "retry"}, c01Ev{K: "ensure"}, c01Ev{K: "finish", T: 0, O: "ok"}, c01Ev{K: "ensure"})
+			out = append(out, c01In{Tasks: ch, Script: sc})
+		}
 		if mode == "f11" {
 			for len(out) < n {
 				out = append(out, c01In{Tasks: c01Graph(r, 4), Seed: r.U64(), Steps: r.Range(0, 10), Mode: mode, AbortP: 150})
